@@ -48,3 +48,120 @@ Theorem C15_frame : forall (w : world) (o : op) (k : nat),
   getn (step w o).1 k = getn w k.
 Proof. exact step_frame. Qed.
 Print Assumptions C15_frame.
+
+(** ** 2. No internal error; generated ids are fresh; the id search never gives up *)
+
+(** the stale-index branch of remove_species is unreachable *)
+Theorem C15_no_internal_error : forall (s : net) (x : string) (prune : bool),
+  Inv s -> (remove_species s x prune).2 <> Some InternalError.
+Proof. exact remove_species_no_internal_error. Qed.
+Print Assumptions C15_no_internal_error.
+
+(** a generated id never names a stored reaction ("no id refers to two reactions") *)
+Theorem C15_fresh_ok : forall (s : net) (rule : string) (c : N) (e : string),
+  next_id s rule = Some (c, e) -> edges s !! e = None.
+Proof. exact next_id_fresh. Qed.
+Print Assumptions C15_fresh_ok.
+
+(** the loop bound [S (size (edges s))] of the model's id search suffices *)
+Theorem C15_fresh_total : forall (s : net) (rule : string), next_id s rule <> None.
+Proof. exact next_id_total. Qed.
+Print Assumptions C15_fresh_total.
+
+(** ** 3. Refinement to the abstract store  id ↦ reaction  (the [edges] map) *)
+
+Theorem C15_add_spec : forall (s : net) (l r : side) (rule : string) (eid : option string)
+                              (s' : net) (er : option err) (e : string),
+  add s l r rule eid = (s', er, e) ->
+  (forall e0, eid = Some e0 -> e = e0) /\
+  match er with
+  | None => edges s !! e = None /\ rxn_empty (Rxn (norm_rule rule) l r) = false /\
+            edges s' = <[e := Rxn (norm_rule rule) l r]> (edges s) /\
+            order s' = (order s ++ [e])%list
+  | Some er' => edges s' = edges s /\ order s' = order s /\
+            (er' = KeyError <-> exists e0, eid = Some e0 /\ is_Some (edges s !! e0)) /\
+            (er' = InternalError <-> eid = None /\ next_id s (norm_rule rule) = None)
+  end.
+Proof. exact add_spec. Qed.
+Print Assumptions C15_add_spec.
+
+Theorem C15_remove_rxn_spec : forall (s : net) (e : string) (s' : net) (er : option err),
+  remove_rxn s e = (s', er) ->
+  (er = None /\ is_Some (edges s !! e) /\ edges s' = delete e (edges s) /\
+   order s' = filter (fun e' => e' <> e) (order s)) \/
+  (er = Some KeyError /\ edges s !! e = None /\ s' = s).
+Proof. exact remove_rxn_spec. Qed.
+Print Assumptions C15_remove_rxn_spec.
+
+Theorem C15_remove_species_spec : forall (s : net) (x : string) (prune : bool) (s' : net) (er : option err),
+  Inv s -> remove_species s x prune = (s', er) ->
+  (er = None /\ x ∈ species s /\
+   edges s' = omap (fun rx => let rx' := Rxn (r_rule rx) (delete x (r_lhs rx)) (delete x (r_rhs rx)) in
+                              if rxn_empty rx' then None else Some rx') (edges s)) \/
+  (er = Some KeyError /\ x ∉ species s /\ s' = s).
+Proof. exact remove_species_spec. Qed.
+Print Assumptions C15_remove_species_spec.
+
+(** ... in particular every other species keeps its coefficients in every reaction it occurs in *)
+Theorem C15_remove_species_others : forall (s : net) (x : string) (prune : bool) (s' : net)
+                                           (e : string) (rx : rxn) (y : string),
+  Inv s -> remove_species s x prune = (s', None) -> edges s !! e = Some rx -> y <> x ->
+  y ∈ rxn_species rx ->
+  exists rx', edges s' !! e = Some rx' /\ r_rule rx' = r_rule rx /\
+    (forall z, z <> x -> r_lhs rx' !! z = r_lhs rx !! z /\ r_rhs rx' !! z = r_rhs rx !! z) /\
+    r_lhs rx' !! x = None /\ r_rhs rx' !! x = None.
+Proof. exact remove_species_others. Qed.
+Print Assumptions C15_remove_species_others.
+
+(** merge never fails when the other network is well-formed; own reactions are
+    kept under their own ids; every reaction of the other network is stored,
+    unchanged, under an id that was free; nothing else appears; without
+    prefixing and without collisions the ids are kept *)
+Theorem C15_merge_spec : forall (s o : net) (prefix : bool) (s' : net) (er : option err),
+  Inv o -> merge s o prefix = (s', er) ->
+  er = None /\ edges s ⊆ edges s' /\
+  (forall e rx, edges o !! e = Some rx -> exists e', edges s' !! e' = Some rx /\ edges s !! e' = None) /\
+  (forall e' rx, edges s' !! e' = Some rx -> edges s !! e' = Some rx \/ exists e, edges o !! e = Some rx) /\
+  (prefix = false -> dom (edges s) ## dom (edges o) ->
+   edges s' = edges s ∪ edges o /\ order s' = (order s ++ order o)%list).
+Proof. exact merge_spec. Qed.
+Print Assumptions C15_merge_spec.
+
+(** ** 4. Incidence = products − reactants *)
+
+Theorem C15_incidence : forall (s : net) (x e : string) (v : Z),
+  (x, e, v) ∈ incidence s <->
+  exists rx, edges s !! e = Some rx /\ x ∈ rxn_species rx /\
+             v = (coef (r_rhs rx) x - coef (r_lhs rx) x)%Z.
+Proof. exact incidence_spec. Qed.
+Print Assumptions C15_incidence.
+
+Theorem C15_incidence_functional : forall (s : net) (x e : string) (v1 v2 : Z),
+  (x, e, v1) ∈ incidence s -> (x, e, v2) ∈ incidence s -> v1 = v2.
+Proof. exact incidence_functional. Qed.
+Print Assumptions C15_incidence_functional.
+
+(** ** 5. History level: "every reaction that was added and not removed is still
+    present under its own id with its own stoichiometry" — one step of any
+    history keeps every stored reaction of every network unchanged under its id,
+    unless the operation removes exactly that reaction, strips one of its
+    species, or overwrites the whole network by a copy; together with
+    [C15_add_spec] (a successful add stores exactly the given reaction under a
+    free id) and [C15_inv_reachable] this is the history statement. *)
+Theorem C15_stored_kept : forall (w : world) (o : op) (k : nat) (e : string) (rx : rxn),
+  Forall Inv w -> edges (getn w k) !! e = Some rx ->
+  ~ match o with
+    | ORemoveRxn i e' => i = k /\ e' = e
+    | ORemoveSpecies i x _ => i = k /\ x ∈ rxn_species rx
+    | OCopy _ j => j = k
+    | _ => False
+    end ->
+  edges (getn (step w o).1 k) !! e = Some rx.
+Proof. exact step_stored_kept. Qed.
+Print Assumptions C15_stored_kept.
+
+(** a copy is the copied network (and by [C15_frame] later edits of the original do not reach it) *)
+Theorem C15_copy_spec : forall (w : world) (i j : nat),
+  j < length w -> getn (step w (OCopy i j)).1 j = getn w i.
+Proof. exact copy_spec. Qed.
+Print Assumptions C15_copy_spec.
